@@ -14,7 +14,8 @@ raised by the input at global position `pos`; `St.failIds` are the ids of the ta
 Quantifier reached: ALL schedules (any `sched`, any leftovers of earlier calls in `parked`, failures arriving
 before / after their neighbours, late completions after the abort and after the next call started), ALL positions
 of failing tasks and of the failing iterator step, ALL configurations with `n_jobs ≥ 2`, scripted batch sizes ≥ 1,
-`pre_dispatch = 'all'` or ≥ 1, all three `return_as` modes (except `timeout_raises`, stated for the ordered
+`pre_dispatch = 'all'` or ≥ 1, completions arriving at the hook points between two calls and inside
+`backend.abort_everything` (`between_calls_noop`, `abort_deliveries_are_noops`), all three `return_as` modes (except `timeout_raises`, stated for the ordered
 retrieval branch), all sequences of calls on one object (through `Idle`, which every call re-establishes). By
 invariants and induction, never by enumeration. Not covered: worker-side traceback capture.
 -/
@@ -149,7 +150,7 @@ theorem clean_after_close (c : Cfg) (s : St) (g : Gen) :
   constructor
   · intro h
     rw [genClose_active c s h]
-    obtain ⟨lg, pk, he, _⟩ := handleException_eq c s
+    obtain ⟨lg, pk, sc, ib, he, _, _⟩ := handleException_eq c s
     show Clean (handleException c s)
     rw [he]
     exact ⟨rfl, rfl, rfl, rfl⟩
@@ -191,17 +192,45 @@ theorem next_call_is_fresh (c : Cfg) (fuel base : Nat) (spec : CallSpec) {s : St
   have := hi.callId_le i
   omega
 
-/-- NEXT CALL IS FRESH (2/2): two consecutive calls on one object. Whatever the first call does — any failing
-tasks, failing iterator, timeout, any schedule; it may return or raise — a second call whose own tasks do not
-fail returns exactly the results of ITS tasks: nothing is left over from the first call. -/
+/-- BETWEEN CALLS. At the hook point between two calls (and after the last call) the object is idle; whatever
+the schedule delivers there — completions of batches of older calls (stale call id) or of the call that just ended
+(after a normal end none of them is parked any more; after an abort / close `_aborting` is still set and the callback
+returns at its abort guard) — changes only the backend's bookkeeping (`parked`, the log, the schedule position): the
+`Parallel` object itself is untouched and stays idle. -/
+theorem between_calls_noop (c : Cfg) {s : St} (hi : Idle s) :
+    (∃ lg pk sc ib, hook c false s = { s with log := lg, parked := pk, sched := sc, inCb := ib } ∧
+      pk.Sublist s.parked ∧ sc.length ≤ s.sched.length) ∧ Idle (hook c false s) :=
+  JoblibModel.ParallelProto.between_calls_noop c hi
+
+/-- DURING ABORT. `backend.abort_everything` is a hook point (batches in flight may complete while the backend is
+cancelling them). `_aborting` is set before, so every callback delivered there returns at its abort guard: `_abort`
+as a whole changes nothing but the two abort flags and the backend's bookkeeping; the same holds for the exception
+handler + `finally` (`handleException`), which in addition clears the job queues and the running flags. -/
+theorem abort_deliveries_are_noops (c : Cfg) (s : St) :
+    (∃ lg pk sc ib, abort c s = { s with log := lg, parked := pk, sched := sc, inCb := ib, aborting := true, aborted := true } ∧
+      pk.Sublist s.parked ∧ sc.length ≤ s.sched.length) ∧
+    (∃ lg pk sc ib, handleException c s = { s with log := lg, parked := pk, sched := sc, inCb := ib, exception := true, aborting := true, aborted := true, jobs := [], jobsSet := [], running := false, calling := false } ∧
+      pk.Sublist s.parked ∧ sc.length ≤ s.sched.length) :=
+  ⟨abort_eq c s, handleException_eq c s⟩
+
+/-- What the between-calls hook preserves of the state a call ended in (used by the two-call theorems). -/
+theorem between_keeps {c : Cfg} {s : St} (hi : Idle s) :
+    Idle (hook c false s) ∧ (hook c false s).hung = s.hung ∧ (hook c false s).failIds = s.failIds := by
+  obtain ⟨⟨lg, pk, sc, ib, e, _, _⟩, h2⟩ := JoblibModel.ParallelProto.between_calls_noop c hi
+  exact ⟨h2, by rw [e], by rw [e]⟩
+
+/-- NEXT CALL IS FRESH (2/2): two consecutive calls on one object, with the hook point between them. Whatever the
+first call does — any failing tasks, failing iterator, timeout, any schedule; it may return or raise — and whatever
+completions of its still-parked batches the schedule delivers between the two calls, a second call whose own tasks do
+not fail returns exactly the results of ITS tasks: nothing is left over from the first call. -/
 theorem second_call_correct {c : Cfg} (hnj : 2 ≤ c.nj) (hbs : ∀ b ∈ c.bs, 1 ≤ b) (hra : c.ra ≠ 2)
     (hpd : c.pdMode = 1 ∨ 1 ≤ c.pd) (hto : c.timeout = -1) {fuel₁ fuel₂ base₁ base₂ : Nat} {spec₁ spec₂ : CallSpec}
     {s₀ : St} (hi : Idle s₀) (hh : s₀.hung = false)
     (hfuel₁ : 2 * spec₁.n + s₀.sched.length + s₀.parked.length + 2 ≤ fuel₁)
     (hfail₂ : ∀ id ∈ s₀.failIds, ¬ (base₂ ≤ id ∧ id < base₂ + spec₂.n)) (hiter₂ : spec₂.iterfail = -1)
-    (hfuel₂ : 2 * spec₂.n + (callList c fuel₁ base₁ spec₁ s₀).1.sched.length +
-      (callList c fuel₁ base₁ spec₁ s₀).1.parked.length + 2 ≤ fuel₂) :
-    ∃ s₂, callList c fuel₂ base₂ spec₂ (callList c fuel₁ base₁ spec₁ s₀).1 =
+    (hfuel₂ : 2 * spec₂.n + (hook c false (callList c fuel₁ base₁ spec₁ s₀).1).sched.length +
+      (hook c false (callList c fuel₁ base₁ spec₁ s₀).1).parked.length + 2 ≤ fuel₂) :
+    ∃ s₂, callList c fuel₂ base₂ spec₂ (hook c false (callList c fuel₁ base₁ spec₁ s₀).1) =
       (s₂, .ret (List.range' base₂ spec₂.n)) ∧ Idle s₂ ∧ Clean s₂ := by
   have hc : CfgOK c := ⟨by omega, hbs⟩
   have ho : ordered c = true := by simp [ordered, hra]
@@ -214,20 +243,21 @@ theorem second_call_correct {c : Cfg} (hnj : 2 ≤ c.nj) (hbs : ∀ b ∈ c.bs, 
     | ret v => exact ⟨h1.1, h1.2.2.1, h1.2.2.2.2.2⟩
     | raised e => exact ⟨h1.1, h1.2.2.1, h1.2.2.2.2.2⟩
     | hung => exact h1.elim
-  obtain ⟨s₂, e, r1, r2, _, _⟩ := callList_nofail hc ho (base := base₂) (spec := spec₂) hidle.1 hidle.2.1 hpd
-    (by rw [hidle.2.2]; exact hfail₂) (by omega) (by omega) hfuel₂
+  obtain ⟨b1, b2, b3⟩ := between_keeps (c := c) hidle.1
+  obtain ⟨s₂, e, r1, r2, _, _⟩ := callList_nofail hc ho (base := base₂) (spec := spec₂) b1 (b2.trans hidle.2.1) hpd
+    (by rw [b3, hidle.2.2]; exact hfail₂) (by omega) (by omega) hfuel₂
   exact ⟨s₂, e, r1, r2⟩
 
 /-- NEXT CALL IS FRESH, unordered mode: the second call returns a rearrangement of the results of ITS tasks (each
-exactly once), whatever the first call did. -/
+exactly once), whatever the first call did and whatever is delivered at the hook point between the calls. -/
 theorem second_call_correct_unordered {c : Cfg} (hnj : 2 ≤ c.nj) (hbs : ∀ b ∈ c.bs, 1 ≤ b) (hra : c.ra = 2)
     (hpd : c.pdMode = 1 ∨ 1 ≤ c.pd) (hto : c.timeout = -1) {fuel₁ fuel₂ base₁ base₂ : Nat} {spec₁ spec₂ : CallSpec}
     {s₀ : St} (hi : Idle s₀) (hh : s₀.hung = false)
     (hfuel₁ : 2 * spec₁.n + s₀.sched.length + s₀.parked.length + 2 ≤ fuel₁)
     (hfail₂ : ∀ id ∈ s₀.failIds, ¬ (base₂ ≤ id ∧ id < base₂ + spec₂.n)) (hiter₂ : spec₂.iterfail = -1)
-    (hfuel₂ : 2 * spec₂.n + (callList c fuel₁ base₁ spec₁ s₀).1.sched.length +
-      (callList c fuel₁ base₁ spec₁ s₀).1.parked.length + 2 ≤ fuel₂) :
-    ∃ s₂ out, callList c fuel₂ base₂ spec₂ (callList c fuel₁ base₁ spec₁ s₀).1 = (s₂, .ret out) ∧
+    (hfuel₂ : 2 * spec₂.n + (hook c false (callList c fuel₁ base₁ spec₁ s₀).1).sched.length +
+      (hook c false (callList c fuel₁ base₁ spec₁ s₀).1).parked.length + 2 ≤ fuel₂) :
+    ∃ s₂ out, callList c fuel₂ base₂ spec₂ (hook c false (callList c fuel₁ base₁ spec₁ s₀).1) = (s₂, .ret out) ∧
       out.Perm (List.range' base₂ spec₂.n) ∧ Idle s₂ ∧ Clean s₂ := by
   have hc : CfgOK c := ⟨by omega, hbs⟩
   have ho : ordered c = false := by simp [ordered, hra]
@@ -240,8 +270,9 @@ theorem second_call_correct_unordered {c : Cfg} (hnj : 2 ≤ c.nj) (hbs : ∀ b 
     | ret v => exact ⟨h1.1, h1.2.2.1, h1.2.2.2.2.2⟩
     | raised e => exact ⟨h1.1, h1.2.2.1, h1.2.2.2.2.2⟩
     | hung => exact h1.elim
-  obtain ⟨s₂, out, e, hp, r1, r2, _, _⟩ := callList_nofail_u hc ho (base := base₂) (spec := spec₂) hidle.1 hidle.2.1
-    hpd (by rw [hidle.2.2]; exact hfail₂) (by omega) (by omega) hfuel₂
+  obtain ⟨b1, b2, b3⟩ := between_keeps (c := c) hidle.1
+  obtain ⟨s₂, out, e, hp, r1, r2, _, _⟩ := callList_nofail_u hc ho (base := base₂) (spec := spec₂) b1
+    (b2.trans hidle.2.1) hpd (by rw [b3, hidle.2.2]; exact hfail₂) (by omega) (by omega) hfuel₂
   exact ⟨s₂, out, e, hp, r1, r2⟩
 
 /-- CLEAN AFTER EXHAUSTION, unordered mode. -/
@@ -263,8 +294,23 @@ example : (callList (⟨3, false, [2], 0, 2, 0, -1, false, false⟩ : Cfg) 200 0
       ({ sched := [[0], [0], [0], [0], [0], [0]], failIds := [3] } : St)).2 = .raised (.task 3) := by decide
 
 example : (callList (⟨3, false, [2], 0, 2, 0, -1, false, false⟩ : Cfg) 200 8 ⟨5, [], -1, []⟩
-      (callList (⟨3, false, [2], 0, 2, 0, -1, false, false⟩ : Cfg) 200 0 ⟨8, [3], -1, []⟩
-        ({ sched := [[0], [0], [0], [0], [0], [0]], failIds := [3] } : St)).1).2 = .ret [8, 9, 10, 11, 12] := by
+      (hook (⟨3, false, [2], 0, 2, 0, -1, false, false⟩ : Cfg) false
+        (callList (⟨3, false, [2], 0, 2, 0, -1, false, false⟩ : Cfg) 200 0 ⟨8, [3], -1, []⟩
+          ({ sched := [[0], [0], [0], [0], [0], [0]], failIds := [3] } : St)).1)).2 = .ret [8, 9, 10, 11, 12] := by
   decide
+
+/-- The backend does not cancel (`abort_drops = false`): after the failing first call two of its batches are still
+parked; one completes at the hook point between the calls (a no-op: the call is aborting), the other one stays
+parked into the second call (stale call id there), which returns exactly its own results. -/
+example : ((callList (⟨3, false, [2], 0, 3, 0, -1, false, false⟩ : Cfg) 200 0 ⟨12, [1], -1, []⟩
+      ({ sched := [[], [1], [], [0]], failIds := [1] } : St)).1.parked,
+    (hook (⟨3, false, [2], 0, 3, 0, -1, false, false⟩ : Cfg) false
+      (callList (⟨3, false, [2], 0, 3, 0, -1, false, false⟩ : Cfg) 200 0 ⟨12, [1], -1, []⟩
+        ({ sched := [[], [1], [], [0]], failIds := [1] } : St)).1).parked,
+    (callList (⟨3, false, [2], 0, 3, 0, -1, false, false⟩ : Cfg) 200 12 ⟨5, [], -1, []⟩
+      (hook (⟨3, false, [2], 0, 3, 0, -1, false, false⟩ : Cfg) false
+        (callList (⟨3, false, [2], 0, 3, 0, -1, false, false⟩ : Cfg) 200 0 ⟨12, [1], -1, []⟩
+          ({ sched := [[], [1], [], [0]], failIds := [1] } : St)).1)).2) =
+    ([0, 2], [2], .ret [12, 13, 14, 15, 16]) := by decide
 
 end C04
